@@ -35,7 +35,32 @@ STATEMENT RANGES of a function (`ranges=[…]`, designated by the `ast.unparse` 
     body assigns may occur nowhere else in the function.
   * `("fragment", lean_name)` — consecutive statements, translated as a definition of their own, `lean_name <free variables> :
     Except CondErr PyE.Flow` (`.ret v` = the range executed `return v`, `.next` = it ran off its end), and used in the function as
-    `PyE.afterRange (lean_name …) <rest>`.  The variables the range assigns may occur nowhere else in the function."""
+    `PyE.afterRange (lean_name …) <rest>`.  The variables the range assigns may occur nowhere else in the function.
+
+WHOLE-EVALUATOR EXTENSIONS (C02: `policy.evaluate`, `policyset._decide_single` / `decide` translated whole; plugin
+`extractors/src_translation_evaluators.py`).  All syntax-directed, anything else still `Unsupported`:
+  * `for x in e: <body>` at the top level of a function, whose body contains `break` / `continue` / the `try` shape below (no `return`,
+    no nested loop): `PyE.forLoop items (v1, …, vn) fun s x => match s with | (v1, …, vn) => <body>` — the CARRIED variables are the
+    variables the body assigns that a top-level assignment before the loop (or a parameter) has defined, as a tuple in order of first
+    assignment in the body; `continue` / running off the end = `.ok (Ctl.next (v1, …, vn))`, `break` = `.ok (Ctl.brk (v1, …, vn))`, the
+    statements after the loop are bound on the tuple the loop ends with.  The other variables the body assigns are local to one
+    iteration: they may not be read after the loop, and a read before the iteration has assigned them is an unbound identifier in the
+    generated Lean (the obligation fails).
+  * `try: if T: <simple> [else: <simple>] except C: <handler>` where <simple> = assignments of constants to names, `continue`,
+    `break`, `pass` — so that only the test `T` can raise inside the `try`: `PyE.tryBind <T> [C…] <handler; rest> fun t => if t then
+    <simple; rest> else <rest>`; the statements after the `try` are OUTSIDE its protection, as in Python.
+  * `x.lower()` (`PyE.lowerE`: AttributeError on a non-str), `dict(x)` (`PyE.dictE`), dict displays with constant string keys
+    (`Py.dictOf`, operands in order), `a if c else b` (a branch that can raise is evaluated only when Python evaluates it),
+    `x["k"] = e` on a local that was bound by `x = dict(…)` and is otherwise only used as `x.get(…)` / `return x` (`Py.setItem`:
+    value semantics = reference semantics when nobody else holds the dict).
+  * keyword-only parameters with constant defaults are ordinary parameters (the default is used at a call that omits the argument
+    and recorded in the doc comment).
+  * `pure_callees`: functions translated by harness/pytolean.py (total, `PyVal`-valued: `match_actions`, `match_resource`, `_is_strict`,
+    `_is_applicable`) are called as plain terms, keyword arguments put in parameter order.  `presigs`: exception-passing functions
+    translated by ANOTHER call of `translate` (`eval_condition` from the condition plugin, `evaluate` seen from policyset.py under its
+    import alias) with their oracle / externals / fuel signature.  A function that calls a function with a `fuel` parameter takes
+    `fuel` itself and passes it on unchanged; the functions of a `mutual` group (`_decide_single` ↔ `decide`) are defined in one
+    `mutual` block by structural recursion on `fuel`, every call out of the `fuel + 1` branch passing the smaller budget."""
 from __future__ import annotations
 
 import ast
@@ -52,7 +77,7 @@ PURE_BUILTINS = ("isinstance", "bool", "str")
 def _ends(stmts: list[ast.stmt]) -> bool:
     """does every path through the statement list end in `return` / `raise`?  (syntactic)"""
     for st in stmts:
-        if isinstance(st, (ast.Return, ast.Raise)):
+        if isinstance(st, (ast.Return, ast.Raise, ast.Break, ast.Continue)):
             return True
         if isinstance(st, ast.If) and _ends(st.body) and _ends(st.orelse):
             return True
@@ -81,9 +106,18 @@ _ALL = _All()
 
 
 class ExceptTranslator(pytolean.Translator):
-    def __init__(self, known: list[str], consts: dict | None, externals: list[str], lean_names: dict[str, str] | None = None):
+    def __init__(self, known: list[str], consts: dict | None, externals: list[str], lean_names: dict[str, str] | None = None,
+                 pure_callees: dict[str, dict] | None = None, presigs: dict[str, dict] | None = None, mutual: list[list[str]] | None = None):
         super().__init__(set(known), consts, oracle=True, externals=externals)
         self.lean_names = lean_names or {}
+        self.pure_callees = pure_callees or {}    # python name → {"lean", "oracle", "params", "defaults"}: total PyVal-valued translations
+        self.presigs = presigs or {}              # python name → {"lean", "oracle", "exts": [[x, arity]…], "fuel", "params", "defaults"}
+        self.mutual = mutual or []
+        self.loop_stack: list[str] = []           # the carried tuple of the enclosing `forLoop` bodies
+        self.fresh_dicts: set[str] = set()        # locals bound by `x = dict(…)`
+        self.pre_loop: dict[int, tuple[set, set]] = {}
+        self.cur_group: list[str] = []
+        self.cur_dec = False
         self.ntmp = 0
         self.sig: dict[str, dict] = {}          # translated function → {"oracle", "exts", "fuel"}
         self.ext_shape: dict[str, tuple] = {}   # external → (number of positional arguments, keyword names)
@@ -143,6 +177,23 @@ class ExceptTranslator(pytolean.Translator):
                 binds += b
                 atoms.append(a)
             return binds, "(PyVal.list [" + ", ".join(atoms) + "])"
+        if isinstance(e, ast.Dict):
+            if not all(isinstance(k, ast.Constant) and isinstance(k.value, str) for k in e.keys):
+                raise Unsupported("dict display with a key that is not a string constant")
+            binds = []
+            items = []
+            for k, v in zip(e.keys, e.values):
+                b, a = self.EX(v)
+                binds += b
+                items.append(f"({lean_str(k.value)}, {a})")
+            return binds, "(Rbacx.Py.dictOf [" + ", ".join(items) + "])"
+        if isinstance(e, ast.IfExp):
+            bt, at = self.EX(e.test)
+            b1, a1 = self.EX(e.body)
+            b2, a2 = self.EX(e.orelse)
+            if not b1 and not b2:
+                return bt, f"(if ({at}).truthy then {a1} else {a2})"
+            return self.exc(bt, f"(if ({at}).truthy then ({self.value(b1, a1, '  ')}) else ({self.value(b2, a2, '  ')}))")
         if isinstance(e, ast.BoolOp):
             parts = [self.EX(v) for v in e.values]
             pure = "PyVal.por" if isinstance(e.op, ast.Or) else "Rbacx.Py.pand"
@@ -228,12 +279,23 @@ class ExceptTranslator(pytolean.Translator):
             if f.attr in ("startswith", "endswith") and len(e.args) == 1:
                 b1, p = self.EX(e.args[0])
                 return self.exc(b0 + b1, f"(Rbacx.PyE.{f.attr}E {recv} {p})")
+            if f.attr == "lower" and not e.args:
+                return self.exc(b0, f"(Rbacx.PyE.lowerE {recv})")
             if f.attr == "split" and len(e.args) == 1 and isinstance(e.args[0], ast.Constant) and isinstance(e.args[0].value, str) \
                     and len(e.args[0].value) == 1 and 32 < ord(e.args[0].value) < 127 and e.args[0].value not in "'\\":
                 return self.exc(b0, f"(Rbacx.PyE.splitE '{e.args[0].value}' {recv})")
             raise Unsupported(f"method call {ast.unparse(e)}")
         if not isinstance(f, ast.Name) or f.id in self.locals:
             raise Unsupported(f"call {ast.unparse(e)}")
+        if f.id in self.pure_callees and f.id not in self.known:
+            pc = self.pure_callees[f.id]
+            binds, atoms = self.call_args(e, pc["params"], pc.get("defaults") or {}, f.id)
+            return binds, "(" + " ".join([pc["lean"]] + (["o"] if pc.get("oracle") else []) + atoms) + ")"
+        if f.id in self.presigs and f.id not in self.known:
+            ps = self.presigs[f.id]
+            binds, atoms = self.call_args(e, ps["params"], ps.get("defaults") or {}, f.id)
+            head = [ps["lean"]] + (["o"] if ps["oracle"] else []) + [ident(x) for x, _ in ps["exts"]]
+            return self.exc(binds, "(" + " ".join(head + atoms + (["fuel"] if ps["fuel"] else [])) + ")")
         if f.id in self.externals and f.id not in self.known:
             shape = (len(e.args), tuple(k.arg for k in e.keywords))
             if self.ext_shape.setdefault(f.id, shape) != shape:
@@ -253,16 +315,16 @@ class ExceptTranslator(pytolean.Translator):
                 b, at = self.EX(a)
                 binds += b
                 atoms.append(at)
-            if f.id == self.cur_name:
+            if f.id == self.cur_name or f.id in self.cur_group:
                 head = [self.lname(f.id)] + (["o"] if self.cur_oracle else []) + [ident(x) for x in self.cur_exts]
                 return self.exc(binds, "(" + " ".join(head + atoms + ["fuel"]) + ")")
             if f.id not in self.sig:
                 raise Unsupported(f"call of {f.id} before its translation (callees first)")
             s = self.sig[f.id]
-            if s["fuel"]:
-                raise Unsupported(f"call of the recursive function {f.id} from another function")
+            if s["fuel"] and not self.cur_fuel:
+                raise Unsupported(f"call of the recursive function {f.id} from a function without a budget")
             head = [self.lname(f.id)] + (["o"] if s["oracle"] else []) + [ident(x) for x in s["exts"]]
-            return self.exc(binds, "(" + " ".join(head + atoms) + ")")
+            return self.exc(binds, "(" + " ".join(head + atoms + (["fuel"] if s["fuel"] else [])) + ")")
         if e.keywords:
             raise Unsupported(f"call {ast.unparse(e)}")
         if f.id == "isinstance" and len(e.args) == 2:
@@ -274,7 +336,7 @@ class ExceptTranslator(pytolean.Translator):
         if f.id in ("bool", "str") and len(e.args) == 1:
             b, a = self.EX(e.args[0])
             return b, (f"(Rbacx.Py.boolOf {a})" if f.id == "bool" else f"(Rbacx.Py.strO o {a})")
-        if f.id in ("len", "float", "list") and len(e.args) == 1:
+        if f.id in ("len", "float", "list", "dict") and len(e.args) == 1:
             b, a = self.EX(e.args[0])
             return self.exc(b, f"(Rbacx.PyE.{f.id}E {a})")
         if f.id in ("all", "any") and len(e.args) == 1 and isinstance(e.args[0], ast.GeneratorExp) and len(e.args[0].generators) == 1:
@@ -283,6 +345,99 @@ class ExceptTranslator(pytolean.Translator):
             b, items = self.exc(b, f"(Rbacx.PyE.iterE {it})")
             return self.exc(b, f"(Rbacx.PyE.{f.id}E {items} {self.lam(g, e.args[0].elt)})")
         raise Unsupported(f"call {ast.unparse(e)}")
+
+    def call_args(self, e: ast.Call, params: list[str], defaults: dict, name: str) -> tuple[list, list[str]]:
+        """the arguments of a call put in the callee's parameter order (evaluated in the order they are written); an omitted
+        parameter takes its constant default"""
+        if len(e.args) > len(params):
+            raise Unsupported(f"call of {name} with too many arguments")
+        binds: list = []
+        got: dict[str, str] = {}
+        for p_, a in zip(params, e.args):
+            b, at = self.EX(a)
+            binds += b
+            got[p_] = at
+        for k in e.keywords:
+            if k.arg not in params or k.arg in got:
+                raise Unsupported(f"call of {name}: keyword {k.arg}")
+            b, at = self.EX(k.value)
+            binds += b
+            got[k.arg] = at
+        atoms = []
+        for p_ in params:
+            if p_ in got:
+                atoms.append(got[p_])
+            elif p_ in defaults:
+                atoms.append(self.E(ast.Constant(defaults[p_])))
+            else:
+                raise Unsupported(f"call of {name}: no argument for {p_}")
+        return binds, atoms
+
+    def only_get_or_return(self, x: str) -> bool:
+        """is every read of the local `x` in the current function `x.get(…)` or `return x`?"""
+        parents = {id(c): n for n in ast.walk(self.cur_fn) for c in ast.iter_child_nodes(n)}
+        for n in ast.walk(self.cur_fn):
+            if isinstance(n, ast.Name) and n.id == x and isinstance(n.ctx, ast.Load):
+                par = parents.get(id(n))
+                if isinstance(par, ast.Return):
+                    continue
+                if isinstance(par, ast.Attribute) and par.attr == "get" and isinstance(parents.get(id(par)), ast.Call):
+                    continue
+                if isinstance(par, ast.Subscript) and isinstance(par.ctx, ast.Store) and par.value is n:
+                    continue
+                return False
+        return True
+
+    @staticmethod
+    def simple_stmts(stmts: list[ast.stmt]) -> bool:
+        """statements that cannot raise: constants assigned to names, `continue`, `break`, `pass`"""
+        return all(isinstance(st, (ast.Continue, ast.Break, ast.Pass))
+                   or (isinstance(st, ast.Assign) and len(st.targets) == 1 and isinstance(st.targets[0], ast.Name) and isinstance(st.value, ast.Constant))
+                   for st in stmts)
+
+    def handler_classes(self, h: ast.ExceptHandler) -> list[str]:
+        tys = h.type.elts if isinstance(h.type, ast.Tuple) else [h.type]
+        if not all(isinstance(t, ast.Name) and t.id in HANDLER_CLASSES and t.id not in self.locals for t in tys):
+            raise Unsupported(f"except clause {ast.unparse(h.type) if h.type else '(bare)'}")
+        return [t.id for t in tys]
+
+    def for_ctl(self, st: ast.For, rest: list[ast.stmt], ind: str, tail: str | None, ret) -> str:
+        """a top-level `for` whose body may `break` / `continue` and carries several variables (module docstring)"""
+        if st.orelse or not isinstance(st.target, ast.Name):
+            raise Unsupported("for/else or tuple target")
+        for b_ in st.body:
+            for n in ast.walk(b_):
+                if isinstance(n, (ast.Return, ast.For, ast.While, ast.With, ast.Raise)):
+                    raise Unsupported(f"{type(n).__name__} inside a for loop with break/continue")
+        if id(st) not in self.pre_loop or self.loop_stack:
+            raise Unsupported("a for loop with break/continue must be a top-level statement of the function")
+        top, nested = self.pre_loop[id(st)]
+        x = st.target.id
+        assigned = self._stores(st.body)
+        if x in assigned or x in top or x in nested:
+            raise Unsupported("the loop target is assigned elsewhere")
+        unsure = [v for v in assigned if v in nested and v not in top]
+        if unsure:
+            raise Unsupported(f"variables {unsure} are assigned in the loop and only conditionally before it")
+        carried = [v for v in assigned if v in top]
+        if not carried:
+            raise Unsupported("a for loop with break/continue that carries no variable")
+        after = _loads(list(rest))
+        if x in after or any(v in after for v in assigned if v not in carried):
+            raise Unsupported("a loop-local variable is read after the loop")
+        tup = "(" + ", ".join(ident(v) for v in carried) + ")"
+        s_ = "s"
+        while s_ in self.locals or s_ in self.externals or s_ in ("o", "fuel"):
+            s_ += "'"
+        b, it = self.EX(st.iter)
+        b, items = self.exc(b, f"(Rbacx.PyE.iterE {it})")
+        self.loop_stack.append(tup)
+        body = self.SX(st.body, ind + "      ", f"(Except.ok (Rbacx.PyE.Ctl.next {tup}))", self.no_ret)
+        self.loop_stack.pop()
+        k = self.SX(rest, ind + "    ", tail, ret)
+        NL = chr(10)
+        return self.wrap(b, f"Rbacx.PyE.bind (Rbacx.PyE.forLoop {items} {tup} fun {s_} ({ident(x)} : PyVal) => match {s_} with{NL}"
+                            f"{ind}    | {tup} =>{NL}{ind}      {body}) fun {s_} => match {s_} with{NL}{ind}  | {tup} =>{NL}{ind}    {k}", ind)
 
     # ------------------------------------------------------------------ statements
     def find_range(self, stmts: list[ast.stmt]) -> tuple[dict, int] | None:
@@ -361,6 +516,10 @@ class ExceptTranslator(pytolean.Translator):
         st, rest = stmts[0], stmts[1:]
         if isinstance(st, ast.Pass) or (isinstance(st, ast.Expr) and isinstance(st.value, ast.Constant) and isinstance(st.value.value, str)):
             return self.SX(rest, ind, tail, ret)
+        if isinstance(st, (ast.Break, ast.Continue)):
+            if not self.loop_stack:
+                raise Unsupported("break / continue outside a translated loop")
+            return f"(Except.ok (Rbacx.PyE.Ctl.{'brk' if isinstance(st, ast.Break) else 'next'} {self.loop_stack[-1]}))"
         if isinstance(st, ast.Return):
             if st.value is None:
                 return ret([], "PyVal.none", ind)
@@ -386,7 +545,18 @@ class ExceptTranslator(pytolean.Translator):
                 raise Unsupported(f"assignment {ast.unparse(st)[:60]}")
             if isinstance(tgt, ast.Name):
                 b, a = self.EX(st.value)
+                if isinstance(st.value, ast.Call) and isinstance(st.value.func, ast.Name) and st.value.func.id == "dict" and "dict" not in self.locals:
+                    self.fresh_dicts.add(tgt.id)
+                else:
+                    self.fresh_dicts.discard(tgt.id)
                 return self.wrap(b, f"let {ident(tgt.id)} := {a}\n{ind}{self.SX(rest, ind, tail, ret)}", ind)
+            if isinstance(tgt, ast.Subscript) and isinstance(tgt.value, ast.Name) and isinstance(tgt.slice, ast.Constant) \
+                    and isinstance(tgt.slice.value, str) and isinstance(st, ast.Assign):
+                x = tgt.value.id
+                if x not in self.fresh_dicts or not self.only_get_or_return(x):
+                    raise Unsupported(f"item assignment to {x}, which is not provably an unaliased dict built by `{x} = dict(…)`")
+                b, a = self.EX(st.value)
+                return self.wrap(b, f"let {ident(x)} := Rbacx.Py.setItem {ident(x)} {lean_str(tgt.slice.value)} {a}\n{ind}{self.SX(rest, ind, tail, ret)}", ind)
             if isinstance(tgt, ast.Tuple) and len(tgt.elts) == 2 and all(isinstance(x, ast.Name) for x in tgt.elts) \
                     and tgt.elts[0].id != tgt.elts[1].id:
                 x, y = tgt.elts[0].id, tgt.elts[1].id
@@ -405,9 +575,27 @@ class ExceptTranslator(pytolean.Translator):
             t1 = self.SX(st.body + rest, ind + "  ", tail, ret) if not _ends(st.body) else self.SX(st.body, ind + "  ", tail, ret)
             t2 = self.SX(st.orelse + rest, ind + "  ", tail, ret) if not _ends(st.orelse) else self.SX(st.orelse, ind + "  ", tail, ret)
             return self.wrap(b, f"if ({a}).truthy then\n{ind}  ({t1})\n{ind}else\n{ind}  ({t2})", ind)
+        if isinstance(st, ast.Try) and not st.orelse and not st.finalbody and len(st.handlers) == 1 \
+                and not (_ends(st.body) and _ends(st.handlers[0].body)) and len(st.body) == 1 and isinstance(st.body[0], ast.If) \
+                and self.simple_stmts(st.body[0].body) and self.simple_stmts(st.body[0].orelse) and not st.handlers[0].name:
+            # only the test of the `if` can raise inside the try; what follows the statement is outside its protection
+            if self.in_range:
+                raise Unsupported("try statement inside a fragment range")
+            h, iff = st.handlers[0], st.body[0]
+            classes = self.handler_classes(h)
+            b, a = self.EX(iff.test)
+            i2 = ind + "    "
+            test = self.value(b, a, i2)
+            t = self.fresh()
+            hd = self.SX(h.body if _ends(h.body) else h.body + rest, i2, tail, ret)
+            t1 = self.SX(iff.body if _ends(iff.body) else iff.body + rest, i2, tail, ret)
+            t2 = self.SX(iff.orelse if _ends(iff.orelse) else iff.orelse + rest, i2, tail, ret)
+            return (f"Rbacx.PyE.tryBind (\n{i2}{test})\n{ind}  [" + ", ".join(lean_str(c) for c in classes) + f"] (\n{i2}{hd}) fun {t} =>\n"
+                    f"{ind}  if ({t}).truthy then\n{i2}({t1})\n{ind}  else\n{i2}({t2})")
         if isinstance(st, ast.Try):
             if st.orelse or st.finalbody or len(st.handlers) != 1 or not _ends(st.body) or not _ends(st.handlers[0].body):
-                raise Unsupported("try statement: only `try: <returns/raises> except C [as e]: <returns/raises>`")
+                raise Unsupported("try statement: only `try: <returns/raises> except C [as e]: <returns/raises>` or "
+                                  "`try: if T: <constants, continue, break> except C: …`")
             h = st.handlers[0]
             tys = h.type.elts if isinstance(h.type, ast.Tuple) else [h.type]
             if not all(isinstance(t, ast.Name) and t.id in HANDLER_CLASSES and t.id not in self.locals for t in tys):
@@ -421,6 +609,8 @@ class ExceptTranslator(pytolean.Translator):
             if self.in_range:
                 raise Unsupported("try statement inside a fragment range")
             return (f"Rbacx.PyE.tryExcept (\n{ind}    {body})\n{ind}  [" + ", ".join(lean_str(t.id) for t in tys) + f"] (\n{ind}    {handler})")
+        if isinstance(st, ast.For) and any(isinstance(n, (ast.Break, ast.Continue, ast.Try)) for b_ in st.body for n in ast.walk(b_)):
+            return self.for_ctl(st, rest, ind, tail, ret)
         if isinstance(st, ast.For):
             if st.orelse or not isinstance(st.target, ast.Name):
                 raise Unsupported("for/else or tuple target")
@@ -468,6 +658,10 @@ class ExceptTranslator(pytolean.Translator):
                     out.add(n.func.id)
                 elif n.func.id in self.known and n.func.id not in seen and n.func.id in fns:
                     out |= self.ext_uses(fns[n.func.id], fns, seen | {n.func.id})
+                elif n.func.id in self.presigs and n.func.id not in self.known:
+                    for x, arity in self.presigs[n.func.id]["exts"]:
+                        out.add(x)
+                        self.ext_arity.setdefault(x, arity)
         return out
 
     def str_uses(self, fn: ast.FunctionDef, fns: dict[str, ast.FunctionDef], seen: set[str]) -> bool:
@@ -475,14 +669,48 @@ class ExceptTranslator(pytolean.Translator):
             if isinstance(n, ast.Call) and isinstance(n.func, ast.Name):
                 if n.func.id == "str":
                     return True
+                if n.func.id not in self.known and ((self.pure_callees.get(n.func.id) or {}).get("oracle") or (self.presigs.get(n.func.id) or {}).get("oracle")):
+                    return True
                 if n.func.id in self.known and n.func.id not in seen and n.func.id in fns and self.str_uses(fns[n.func.id], fns, seen | {n.func.id}):
                     return True
         return False
 
+    def fuel_uses(self, fn: ast.FunctionDef, fns: dict[str, ast.FunctionDef]) -> bool:
+        """does the function call a function that takes a budget (itself, a member of its mutual group, a translated recursive function)?"""
+        group = next((g for g in self.mutual if fn.name in g), [])
+        for n in ast.walk(fn):
+            if isinstance(n, ast.Call) and isinstance(n.func, ast.Name):
+                f = n.func.id
+                if f == fn.name or f in group:
+                    return True
+                if f in self.known and f in self.sig and self.sig[f]["fuel"]:
+                    return True
+                if f not in self.known and f in self.presigs and self.presigs[f]["fuel"]:
+                    return True
+        return False
+
     def function_e(self, fn: ast.FunctionDef, fns: dict[str, ast.FunctionDef], ranges: list[dict]) -> dict:
-        if fn.args.vararg or fn.args.kwarg or fn.args.defaults or fn.args.posonlyargs or fn.args.kwonlyargs:
+        kwdefaults = {}
+        for a, d in zip(fn.args.kwonlyargs, fn.args.kw_defaults):
+            if d is None or not isinstance(d, ast.Constant):
+                raise Unsupported(f"signature of {fn.name}: keyword-only parameter {a.arg} without a constant default")
+            kwdefaults[a.arg] = d.value
+        if fn.args.vararg or fn.args.kwarg or fn.args.defaults or fn.args.posonlyargs:
             raise Unsupported(f"signature of {fn.name}")
-        self.locals = {a.arg for a in fn.args.args} | {n.id for n in ast.walk(fn) if isinstance(n, ast.Name) and isinstance(n.ctx, ast.Store)} \
+        all_params = [a.arg for a in fn.args.args + fn.args.kwonlyargs]
+        self.loop_stack, self.fresh_dicts = [], set()
+        self.pre_loop = {}
+        for i, st in enumerate(fn.body):
+            if isinstance(st, ast.For):
+                top = set(all_params)
+                for s0 in fn.body[:i]:
+                    if isinstance(s0, (ast.Assign, ast.AnnAssign)) and getattr(s0, "value", None) is not None:
+                        tg = s0.targets[0] if isinstance(s0, ast.Assign) and len(s0.targets) == 1 else getattr(s0, "target", None)
+                        if isinstance(tg, ast.Name):
+                            top.add(tg.id)
+                self.pre_loop[id(st)] = (top, set(self._stores(fn.body[:i])) - top)
+        self.cur_group = next((g for g in self.mutual if fn.name in g), [])
+        self.locals = {a.arg for a in fn.args.args + fn.args.kwonlyargs} | {n.id for n in ast.walk(fn) if isinstance(n, ast.Name) and isinstance(n.ctx, ast.Store)} \
             | {h.name for n in ast.walk(fn) if isinstance(n, ast.Try) for h in n.handlers if h.name}
         self.cur_fn, self.cur_name, self.ntmp, self.fns = fn, fn.name, 0, fns
         self.ranges = [dict(r) for r in ranges]
@@ -490,12 +718,13 @@ class ExceptTranslator(pytolean.Translator):
         self.cur_oracle = self.str_uses(fn, fns, {fn.name})
         uses = self.ext_uses(fn, fns, {fn.name}) | {r["as"][1] for r in self.ranges if r["as"][0] == "external"}
         self.cur_exts = [x for x in self.externals if x in uses]
-        self.cur_fuel = any(isinstance(n, ast.Call) and isinstance(n.func, ast.Name) and n.func.id == fn.name for n in ast.walk(fn))
+        self.cur_dec = bool(self.cur_group) or any(isinstance(n, ast.Call) and isinstance(n.func, ast.Name) and n.func.id == fn.name for n in ast.walk(fn))
+        self.cur_fuel = self.cur_dec or self.fuel_uses(fn, fns)
         taken = {"o", "fuel"} | {ident(x) for x in self.externals} | {self.lname(k) for k in self.known}
         clash = sorted(v for v in self.locals if ident(v) in taken or ident(v).startswith("t") and ident(v)[1:].isdigit())
         if clash or len({ident(v) for v in self.locals}) != len(self.locals):
             raise Unsupported(f"{fn.name}: variable names clash with names the translation uses: {clash}")
-        body = self.SX(list(fn.body), "    " if self.cur_fuel else "  ", None, self.plain_ret)
+        body = self.SX(list(fn.body), "    " if self.cur_dec else "  ", None, self.plain_ret)
         missing = [r["as"][1] for r in self.ranges if not r.get("done")]
         if missing:
             raise Unsupported(f"{fn.name}: designated statement range(s) not found: {missing}")
@@ -508,41 +737,69 @@ class ExceptTranslator(pytolean.Translator):
             if rng:
                 notes.append(f"`{ident(x)}`: the statements `if {rng[0]['first']}: …` ({len(rng[0]['args'])} inputs: {', '.join(rng[0]['args'])}), NOT "
                              f"translated — a function parameter whose assumed behaviour is the hand-written model of that branch")
+            elif not any(isinstance(n, ast.Call) and isinstance(n.func, ast.Name) and n.func.id == x for n in ast.walk(fn)) and \
+                    [f for f, ps in self.presigs.items() if any(x == y for y, _ in ps["exts"])]:
+                via = [ps["lean"] for f, ps in self.presigs.items() if any(x == y for y, _ in ps["exts"])]
+                notes.append(f"`{ident(x)}`: an external parameter of the translated `{via[0]}`, handed on")
             else:
                 notes.append(f"`{ident(x)}`: the function `{x}`, NOT translated — a parameter (the obligation instantiates it with the model's "
                              f"counterpart, the differential run with CPython's results)")
-        if self.cur_fuel:
+        notes += [f"`{ident(k_)}`: keyword-only in the source, default {v_!r}" for k_, v_ in kwdefaults.items()]
+        if self.cur_dec:
             notes.append("`fuel`: budget of nested self-calls (0 ⇒ OutOfFuel); the obligation proves that the size of the document suffices")
+        elif self.cur_fuel:
+            notes.append("`fuel`: the budget handed on, unchanged, to the recursive functions this one calls")
         doc = "/-- exception-passing translation of `" + fn.name + "`" + "".join("; " + n for n in notes).replace("-/", "- /") + " -/\n"
         head = [self.lname(fn.name)] + (["(o : Oracle)"] if self.cur_oracle else []) + [self.ext_param(x) for x in self.cur_exts] \
-            + [f"({ident(a.arg)} : PyVal)" for a in fn.args.args]
-        if self.cur_fuel:
+            + [f"({ident(a)} : PyVal)" for a in all_params]
+        if self.cur_dec:
             text = (f"{doc}def {' '.join(head)} (fuel : Nat) : Except CondErr PyVal :=\n  match fuel with\n  | 0 => Rbacx.PyE.outOfFuel\n"
                     f"  | fuel + 1 =>\n    {body}\n")
+        elif self.cur_fuel:
+            text = f"{doc}def {' '.join(head)} (fuel : Nat) : Except CondErr PyVal :=\n  {body}\n"
         else:
             text = f"{doc}def {' '.join(head)} : Except CondErr PyVal :=\n  {body}\n"
         return {"lean": "".join(f + "\n" for f in self.fragments) + text, "oracle": self.cur_oracle,
                 "externals": [[x, self.ext_arity[x]] for x in self.cur_exts], "fuel": self.cur_fuel,
-                "params": [a.arg for a in fn.args.args],
+                "params": all_params, "defaults": kwdefaults, "lean_name": self.lname(fn.name),
                 "ranges": [{"as": list(r["as"]), "args": r.get("args"), "first": r["first"], "last": r["last"]} for r in self.ranges]}
 
 
 def translate(source: str, names: list[str], externals: list[str], ranges: dict[str, list[dict]] | None = None,
-              lean_names: dict[str, str] | None = None) -> dict[str, dict]:
+              lean_names: dict[str, str] | None = None, pure_callees: dict[str, dict] | None = None, presigs: dict[str, dict] | None = None,
+              mutual: list[list[str]] | None = None) -> dict[str, dict]:
     """{python function name: {"lean": text, "oracle", "externals": [[name, arity]…], "fuel", "params", "ranges"}} in the order given
     (callees first).  `ranges[fn]` = designated statement ranges of `fn` (module docstring): `{"first": test text, "last": test text,
     "as": ("external" | "fragment", name)}`."""
     tree = ast.parse(source)
     fns = {n.name: n for n in tree.body if isinstance(n, ast.FunctionDef)}
-    tr = ExceptTranslator(names, pytolean._module_consts(tree), externals, lean_names)
+    tr = ExceptTranslator(names, pytolean._module_consts(tree), externals, lean_names, pure_callees, presigs, mutual)
     out = {}
     for name in names:
         if name not in fns:
             raise Unsupported(f"function {name} not found")
+    for g in mutual or []:
+        # the members of a mutual group call one another before they are translated: their common signature first
+        if [n for n in names if n in g] != list(g) or names.index(g[-1]) - names.index(g[0]) != len(g) - 1:
+            raise Unsupported(f"the functions of the mutual group {g} must be listed together, in this order")
+        oracle = any(tr.str_uses(fns[n], fns, {n}) for n in g)
+        uses: set[str] = set()
+        for n in g:
+            uses |= tr.ext_uses(fns[n], fns, {n})
+        for n in g:
+            tr.sig[n] = {"oracle": oracle, "exts": [x for x in externals if x in uses], "fuel": True}
+    for name in names:
         try:
+            group = next((g for g in mutual or [] if name in g), None)
+            pre = dict(tr.sig[name]) if group else None
             out[name] = tr.function_e(fns[name], fns, (ranges or {}).get(name, []))
+            if pre is not None and (pre["oracle"], pre["exts"]) != (tr.sig[name]["oracle"], tr.sig[name]["exts"]):
+                raise Unsupported(f"mutual group {group}: the members do not agree on oracle / externals ({pre} vs {tr.sig[name]})")
         except Unsupported as e:
             raise Unsupported(f"{name}: {e}") from e
+    for g in mutual or []:
+        out[g[0]]["lean"] = "mutual\n" + out[g[0]]["lean"]
+        out[g[-1]]["lean"] = out[g[-1]]["lean"] + "end\n"
     return out
 
 
